@@ -362,6 +362,10 @@ def run(ctx):
                         R.ob('C16.range', (item.npath if item else f.npath, 'timer bound inside the timer range'), bool(ms) and min(ms) <= TIMER_RANGE_MS,
                              'the constant that clamps the timeout handed to DelayQueue is at most 2^35 ms (DelayQueue::insert panics for timeouts beyond its 2^36 ms wheel, measured from the queue\'s creation)',
                              [f.loc(t)], 'bound = %s ms' % (min(ms) if ms else 'not a compile-time constant'))
+    # DelayQueue::remove panics on a key that is no longer valid: timers are removed only together with their entry (both tables)
+    from .C11 import timer_removed_with_entry
+    n_partial += timer_removed_with_entry(ctx, 'C16.partial', 'client')
+    n_partial += timer_removed_with_entry(ctx, 'C16.partial', 'server')
     R.count('partial_operation_sites', n_partial)
     if n_partial < 8:
         raise CannotDecide('only %d partial-operation sites found (floor 8)' % n_partial)
